@@ -21,6 +21,7 @@ struct Context {
 void init_context(Context &gc);
 ops::Plan generate(Context &gc, uint64_t run_seed, uint64_t index);
 uint64_t enum_size(Context &gc);
+void prime_request_counts_in_child(Context &gc);
 ops::Plan warmup_plan(Context &gc, uint64_t env_seed = 0);
 
 // C11
